@@ -231,9 +231,7 @@ def run(case, ctx):
         return lambda e: log.append((me, "obs", e.object.__dict__.get("_serial")))
 
     def fsig(attr):
-        """Known families: F50 (the Union's own default_value list), F50b (plain list over an inherited Any list default)."""
-        if attr in names and kinds[names.index(attr)] == "uniondef":
-            return "/union-default-value"
+        """Known family F50b: a plain list in a subclass body over an inherited Any list default."""
         if attr in over_anylist:
             return "/subclass-list-over-any"
         return ""
